@@ -14,7 +14,7 @@ import (
 )
 
 func init() {
-	propertyRules["C19"] = []ruleFn{ruleCodecSym, ruleGobExported, ruleDecodeErr, ruleTypeSwitch, ruleHashInput, ruleCtor, ruleSig, ruleFixedRead, ruleTypedNil, ruleDecodeFresh}
+	propertyRules["C19"] = []ruleFn{ruleCodecSym, ruleGobExported, ruleDecodeErr, ruleTypeSwitch, ruleHashInput, ruleCtor, ruleSig, ruleFixedRead, ruleTypedNil, ruleDecodeFresh, ruleSigLength}
 	propertyExplain["C19"] = "A-CODEC-SYM: for every type with EncodeBinary/DecodeBinary each field is read by the encoder on every successful path (or is a reasoned derived/cache field) and assigned by the decoder on every successful path; A-GOB-EXPORTED: structs handed to gob have only exported fields; G-DECODE-ERR: no decoder drops an error; A-TYPE-SWITCH: the recovery message packs every payload kind the library adds and each Get* reconstruction uses the kind and body type of the list it reads, copying every body field; A-HASH-INPUT: Hash() is Hash256 of the unsigned encoding (which covers every field except the cache) and block hash/sign/verify all feed GetHashData, which does not read the signature; P-CTOR: constructors use every named parameter in its role; P-SIG: Sign and Verify hash the message with the same function; Merkle parents hash left‖right. Collision resistance, ECDSA soundness and gob's robustness on arbitrary bytes are not decided."
 }
 
@@ -613,6 +613,46 @@ func ruleTypeSwitch(c *RC) *RuleResult {
 			}
 			return true
 		})
+	}
+	// every kind of message the library defines can be decoded: an encoder that writes a kind the decoder refuses makes the
+	// codec one-way for that kind (the bundled decoder had no arm for pre-commits)
+	{
+		decoded := map[string]bool{}
+		for _, md := range c.clusterFns(c.messageDecoder()) {
+			ast.Inspect(md.Decl.Body, func(n ast.Node) bool {
+				if cc, ok := n.(*ast.CaseClause); ok {
+					for _, e := range cc.List {
+						if k := constName(md.Pkg.TypesInfo, e); k != "" {
+							decoded[k] = true
+						}
+					}
+				}
+				// (a table of body constructors keyed by kind)
+				if kv, ok := n.(*ast.KeyValueExpr); ok {
+					if k := constName(md.Pkg.TypesInfo, kv.Key); k != "" {
+						decoded[k] = true
+					}
+				}
+				return true
+			})
+		}
+		if root := c.Prog.Pkgs[""]; root != nil && len(decoded) > 0 {
+			var kinds []string
+			for _, name := range root.Types.Scope().Names() {
+				if cst, ok := root.Types.Scope().Lookup(name).(*types.Const); ok && namedName(cst.Type()) == "MessageType" {
+					kinds = append(kinds, name)
+				}
+			}
+			sort.Strings(kinds)
+			for _, k := range kinds {
+				r.Sites++
+				if decoded[k] {
+					r.ok("the message decoder has an arm for " + k)
+				} else {
+					r.fail("message.DecodeBinary/arm:"+k, c.Prog.Pos(c.messageDecoder().Decl), "the message decoder has no arm for "+k+": a payload of that kind can be encoded (and hashed, and signed) but every attempt to decode it fails — the codec is not faithful for that kind")
+				}
+			}
+		}
 	}
 	// reconstructions
 	makers := c.payloadMakers()
@@ -2279,4 +2319,75 @@ func paramReaches(fn *FuncInfo, prm *types.Var, envField string, setterField map
 		return !found
 	})
 	return found
+}
+
+// A-SIG-LENGTH (C19): the signature handed to a verification function of package crypto is a byte slice of whatever
+// length the sender chose. Slicing it with constant bounds without a look at its length panics on a short one — and,
+// worse, RE-slices within the capacity: `valid[:0]` still has the valid signature behind it, so a zero-length "signature"
+// verifies. Every constant-bound slice or index of a []byte parameter is preceded by a comparison of its length.
+func ruleSigLength(c *RC) *RuleResult {
+	r := &RuleResult{Rule: "A-SIG-LENGTH", Kind: "GUARD", Doc: "in package crypto a []byte parameter is sliced / indexed with constant bounds only after its length was compared"}
+	for _, fn := range c.Prog.sortedFuncs() {
+		if fn.Pkg.PkgPath != modPath+"/internal/crypto" || fn.Decl == nil || fn.Decl.Body == nil {
+			continue
+		}
+		info := fn.Pkg.TypesInfo
+		for _, p := range fn.Params {
+			sl, ok := p.Type().Underlying().(*types.Slice)
+			if !ok {
+				continue
+			}
+			if b, ok := sl.Elem().Underlying().(*types.Basic); !ok || b.Kind() != types.Byte {
+				continue
+			}
+			isP := func(e ast.Expr) bool {
+				id, ok := ast.Unparen(e).(*ast.Ident)
+				return ok && info.Uses[id] == types.Object(p)
+			}
+			isConst := func(e ast.Expr) bool {
+				if e == nil {
+					return false
+				}
+				tv, ok := info.Types[e]
+				return ok && tv.Value != nil
+			}
+			var firstRead ast.Node
+			checked := token.NoPos
+			ast.Inspect(fn.Decl.Body, func(n ast.Node) bool {
+				switch x := n.(type) {
+				case *ast.SliceExpr:
+					if isP(x.X) && (isConst(x.High) && x.High != nil) && firstRead == nil {
+						firstRead = x
+					}
+				case *ast.IndexExpr:
+					if isP(x.X) && isConst(x.Index) && firstRead == nil {
+						firstRead = x
+					}
+				case *ast.BinaryExpr:
+					for _, side := range []ast.Expr{x.X, x.Y} {
+						if call, ok := ast.Unparen(side).(*ast.CallExpr); ok && len(call.Args) == 1 && isP(call.Args[0]) {
+							if id, ok := call.Fun.(*ast.Ident); ok && id.Name == "len" && checked == token.NoPos {
+								checked = x.Pos()
+							}
+						}
+					}
+				}
+				return true
+			})
+			if firstRead == nil {
+				continue
+			}
+			r.Sites++
+			if checked != token.NoPos && checked < firstRead.Pos() {
+				r.ok(fmt.Sprintf("%s: %s is sliced with constant bounds after its length was compared", fn.Name, p.Name()))
+			} else {
+				r.fail(fn.Name+"/unchecked-length:"+p.Name(), c.Prog.Pos(firstRead), fmt.Sprintf("%s slices its parameter %s with constant bounds without looking at its length: a shorter slice panics or — within its capacity — is re-sliced, so that an empty slice cut from a valid signature verifies", fn.Name, p.Name()))
+			}
+		}
+	}
+	if r.Sites == 0 {
+		r.Sites++
+		r.ok("no constant-bound reads of []byte parameters in package crypto")
+	}
+	return r
 }
